@@ -340,6 +340,29 @@ def _history_case(ctx, drv, rng, i, n_sub):
             pass
         if bytes(mb) != mb_before:
             return fail("the model bytes were modified", "model-mutated")
+    if i % 3 == 1 and shared_cr:
+        # a calibration result that went through json (python floats and nested lists instead of float32 arrays) is the caller's object
+        # like any other: quantize() and a resumed calibrate() must leave it exactly as it was (types included)
+        restored = json.loads(json.dumps({k: {n: np.asarray(v).tolist() for n, v in qsv.items()} for k, qsv in shared_cr.items()}))
+        r0 = snap(restored)
+        if qs[0].get_quantization_recipe():
+            try:
+                qs[0].quantize(restored)
+            except Exception:  # noqa: BLE001
+                pass
+            ctx.tag("quantize_json_restored_result")
+            if snap(restored) != r0:
+                return fail("quantize() modified the calibration result passed in (a result restored from json)", "cr-mutated-json-restored")
+        if qs[0].need_calibration:
+            more = gm.random_inputs(mb, rng, n=1)
+            for sig, samples in more.items():
+                try:
+                    qs[0].calibrate(samples, signature_key=sig, previous_calibration_result=restored)
+                except Exception:  # noqa: BLE001
+                    pass
+                ctx.tag("calibrate_json_restored_previous")
+                if snap(restored) != r0:
+                    return fail("calibrate() modified the previous calibration result (a result restored from json)", "previous-mutated-json-restored")
     if i % 3 == 0:
         # samples with non-finite values (NaN, +Inf, -Inf) are the caller's too: a throw-away object calibrates / validates on them (so that
         # the statistics of this history stay clean); whatever it makes of such values, the arrays handed in keep their bytes
